@@ -197,7 +197,11 @@ func (g *Engine) registerIntrinsics() {
 		return arr
 	})
 	vx("vxTime", func(e *Exec, a []Value, pos token.Pos) Value {
-		return e.mkTime(e.freshInput("i64", 64))
+		// instants are 0 <= ns < 2^62: overflow of the 64-bit nanosecond count is outside every claim
+		v := e.tb.Fresh("v", 62)
+		t := e.tb.Conv(v, 64, false)
+		e.recordInput("i64", 64, "", t)
+		return e.mkTime(t)
 	})
 	vx("vxGuard", func(e *Exec, a []Value, pos token.Pos) Value {
 		e.guards = append(e.guards, guardRule{e.argStr(a[0]), e.argStr(a[1]), e.argStr(a[2])})
@@ -292,6 +296,44 @@ func (g *Engine) registerIntrinsics() {
 	I["(*sync.WaitGroup).Add"] = nop
 	I["(*sync.WaitGroup).Done"] = nop
 	I["(*sync.WaitGroup).Wait"] = nop
+	// sync.Cond.Wait in the sequential model: release L, let the harness run the pending events, re-acquire L.
+	// A wait that is never satisfied (no pending events left) is the deadlock "the caller blocks for ever".
+	I["(*sync.Cond).Wait"] = func(e *Exec, fn *ssa.Function, a []Value, pos token.Pos) Value {
+		p := e.ptr(a[0], pos)
+		st := getPath(p.obj.v, p.path).(StructV)
+		var locker Iface
+		for _, f := range st {
+			if l, ok := f.(Iface); ok && l.t != nil {
+				locker = l
+			}
+		}
+		e.condWaits++
+		if e.condWaits > 6 {
+			if len(e.dec) >= len(e.prefix) {
+				e.fail("deadlock", "sync.Cond.Wait is never satisfied: the caller blocks for ever", pos, e.tb.True())
+			}
+			panic(pathEnd{"deadlock"})
+		}
+		if locker.t != nil {
+			e.unlock(locker.v, false, pos)
+		}
+		if hook := e.eng.pkg.Func("vxCondWait"); hook != nil {
+			e.callFunc(hook, nil, nil, pos)
+		}
+		if locker.t != nil {
+			e.lock(locker.v, false, pos)
+		}
+		return nil
+	}
+	vx("vxSpawn", func(e *Exec, a []Value, pos token.Pos) Value {
+		// symbolic: the closure becomes the pending event set run at the next blocking wait
+		g := e.eng.pkg.Var("vxPending")
+		if g == nil {
+			e.unsupported("vxSpawn without vxPending")
+		}
+		e.store(&Ptr{obj: e.global(g)}, a[0], pos)
+		return nil
+	})
 	I["(*sync.Cond).Broadcast"] = nop
 	I["(*sync.Cond).Signal"] = nop
 	I["(*sync.Pool).Get"] = func(e *Exec, fn *ssa.Function, a []Value, pos token.Pos) Value {
